@@ -445,7 +445,13 @@ class Recorder:
         if begin:
             self.emit("EIdleDecide")
         else:
-            self.pending_idle = True   # the releaser is spawned right after; emit at spawn
+            self.pending_idle = True   # the releaser is spawned right after; the model action is emitted at spawn
+            # the mark itself is logged here, whether or not a releaser follows (the C36 monitor works from the marks)
+            h = self.handler()
+            self.idle_marks.append((self.now(), h.idle_since))
+            self.ev("idle-mark", idle_since=units(h.idle_since.timestamp() - vloop.CLOCK.wall_offset - 1000.0),
+                    busy=self.obs()[5], mail=list(self.mail), sched=self.sched, retries=self.retries,
+                    bodies={("%s:%s" % k): v for k, v in self.bodies.items() if v})
 
     def on_spawn(self, task, name):
         if self.skip:
@@ -453,11 +459,6 @@ class Recorder:
         if getattr(self, "pending_idle", False):
             self.pending_idle = False
             self.new_task("releaser", task, due=self.now() + self.tau)
-            h = self.handler()
-            self.idle_marks.append((self.now(), h.idle_since))
-            self.ev("idle-mark", idle_since=units(h.idle_since.timestamp() - vloop.CLOCK.wall_offset - 1000.0),
-                    busy=self.obs()[5], mail=list(self.mail), sched=self.sched, retries=self.retries,
-                    bodies={("%s:%s" % k): v for k, v in self.bodies.items() if v})
             self.emit("EIdleWrite")
 
     def on_idle_clear(self):
@@ -598,7 +599,7 @@ class Chain:
 # ------------------------------------------------------------------ scenarios
 def gen_case(rng, kind=None):
     """ops: list of (time_units, op, payload), sorted by time."""
-    kinds = ["plain", "self", "retry", "retry2", "wait", "waitresp", "crash", "boundary", "zero", "yield", "startup", "burst", "latency"]
+    kinds = ["plain", "self", "retry", "retry2", "waitretry", "wait", "waitresp", "crash", "boundary", "zero", "yield", "startup", "burst", "latency"]
     kind = kind or rng.choice(kinds)
     tau = rng.choice([8, 16, 32, 64, 96])
     y = 0
@@ -644,6 +645,17 @@ def gen_case(rng, kind=None):
         ops.append((0, "policy", POLICY_delay / U))
         ops.append((t, "send", plain_ev(fail=True, dur=0.0)))
         ops.append((t + POLICY_delay // 2, "send", plain_ev(fail=True, dur=0.0)))
+        t += 3 * POLICY_delay + 4 * tau + 40
+        ops.append((t, "send", plain_ev(fin=True)))
+    elif kind == "waitretry":
+        # a wait_for_event timeout fires first (one scheduled wake-up that is not a retry comes and goes), later a
+        # failing input whose retry waits for longer than the idle timeout
+        T = rng.choice([tau // 2 or 1, tau])
+        POLICY_delay = rng.choice([2 * tau + 8, 3 * tau])
+        ops.append((0, "policy", POLICY_delay / U))
+        ops.append((t, "send", plain_ev(wait=T / U, dur=0.0)))
+        t += T + rng.choice([2, tau // 2 + 1, 2 * tau + 5])
+        ops.append((t, "send", plain_ev(fail=True, dur=0.0)))
         t += 3 * POLICY_delay + 4 * tau + 40
         ops.append((t, "send", plain_ev(fin=True)))
     elif kind == "wait":
@@ -937,14 +949,11 @@ def analyze(case, rec, res, ref=None):
     for m in marks:
         due = m["idle_since"] + tau
         disturbed = False
-        for e in log:
-            if e["t"] < m["t"] or e is m:
-                continue
+        for e in log[log.index(m) + 1:]:      # only what happens AFTER the mark (log order, not just time)
             if e["t"] > due + slack:
                 break
             if e["kind"] in ("sender-begin", "crash", "idle-mark", "finished") or (
-                    e["kind"] == "tick" and e.get("type") != "idle_check" and e["t"] >= m["t"]
-                    and log.index(e) > log.index(m)):
+                    e["kind"] == "tick" and e.get("type") != "idle_check"):
                 disturbed = True
                 break
         if disturbed or due + slack > case["horizon"] - 2:
@@ -1043,7 +1052,7 @@ def run_suite(ctx, n, props, with_reference=0.35):
     conform value, issues (restricted to `props`)."""
     import core
     rng = random.Random(ctx.seed * 7919 + 11)
-    kinds = ["plain", "self", "retry", "retry2", "wait", "waitresp", "crash", "boundary", "zero", "yield", "startup", "burst", "latency"]
+    kinds = ["plain", "self", "retry", "retry2", "waitretry", "wait", "waitresp", "crash", "boundary", "zero", "yield", "startup", "burst", "latency"]
     out, exprs, total = [], [], {}
     corpus = corpus_cases()
     for k in range(len(corpus) + n):
